@@ -21,6 +21,9 @@ static inline void swap(void *fst, void *snd, size_t size) {
 	//void *temp = alloca(size);
 	char temp[size];
 
+	if (fst == snd) {
+		return;
+	}
 	memcpy(temp, snd, size);
 	memcpy(snd, fst, size);
 	memcpy(fst, temp, size);
